@@ -582,7 +582,13 @@ class Evaluator:
             raise _Continue()
         if isinstance(st, ast.Raise):
             raise RaiseReached(st)
-        if isinstance(st, (ast.Import, ast.ImportFrom)):
+        if isinstance(st, ast.Import):
+            for a in st.names:
+                env[a.asname or a.name.split(".")[0]] = ("import", a.name if a.asname else a.name.split(".")[0])
+            return
+        if isinstance(st, ast.ImportFrom):
+            for a in st.names:
+                env[a.asname or a.name] = ("import", "%s.%s" % (st.module, a.name))
             return
         if isinstance(st, ast.FunctionDef) and not st.decorator_list:
             env[st.name] = ("closure", st, env)
@@ -648,8 +654,13 @@ class Evaluator:
                     self.store_general(base, idx, val, target)
                     return
                 d = base.data
-                for i in idx[:-1]:
-                    d = d[i]
+                try:
+                    for i in idx[:-1]:
+                        d = d[i]
+                    if isinstance(idx[-1], int):
+                        d[idx[-1]]
+                except IndexError:
+                    self.index_error(target)
                 last = idx[-1]
                 if isinstance(last, int):
                     if isinstance(d[last], list):
@@ -675,6 +686,9 @@ class Evaluator:
                 raise AnalysisError("E3: unsupported array store (line %d)" % target.lineno)
             raise AnalysisError("E3: store into %r unsupported (line %d)" % (type(base).__name__, target.lineno))
         raise AnalysisError("E3: unsupported assignment target (line %d)" % target.lineno)
+
+    def index_error(self, node):
+        raise AnalysisError("E3: index out of range (line %d)" % getattr(node, "lineno", 0))
 
     def store_general(self, base, idx, val, target):
         """base[idx] = val for any mix of integers, slices and newaxis: the selected positions are computed by indexing an
